@@ -21,15 +21,13 @@ Conflicts.  The C++ functions return `false` leaving the explanation in `theory:
 all the state changes made before the conflict was found in place; the model functions return
 the explanation (`some cnfl`) together with the state reached.
 
-Oddities of the C++ that are modelled as they are:
- * `row::propagate_ub`, positive-coefficient branch, tests `is_negative_infinite(th.lb(v))`
-   (the variable whose bound changed) where the three sibling loops test `th.lb(c_v)` (the
-   variable of the current term);
- * `row::propagate_lb / propagate_ub` never add the row's known term to the bound they compute
-   (rows created by `new_lt … new_gt` have none; rows created through the public `new_var(lin)`
-   may);
- * the public `new_var(lin)` stores the expression as a row as it is given (no substitution of
-   basic variables).
+Oddity of the C++ that is modelled as it is: `row::propagate_ub`, positive-coefficient branch,
+tests `is_negative_infinite(th.lb(v))` (the variable whose bound changed) where the three sibling
+loops test `th.lb(c_v)` (the variable of the current term).
+
+Rows may have a known term (those created through the public `new_var(lin)`; the rows created by
+`new_lt … new_gt` have none): `row::propagate_lb / propagate_ub` start the bound of the row's
+expression from it, and `pivot` carries it along.
 -/
 import OratioModel.Sat.Core
 import OratioModel.Arith.InfRational
@@ -174,25 +172,7 @@ def newRow (t : Lra) (x : Nat) (l : Lin) : Lra :=
 def setBound (t : Lra) (i : Nat) (b : LBound) : Lra := { t with bounds := t.bounds.set i b }
 def setVal (t : Lra) (v : Nat) (x : IR) : Lra := { t with vals := t.vals.set v x }
 
-/-- `new_var(const lin&)`: `none` = an assertion of the C++ fails (empty expression, or a new
-    slack variable is needed above the root level) -/
-def newVarLin (s : Sat) (t : Lra) (l : Lin) : Option (Nat × Lra) :=
-  if l.vars.isEmpty then none
-  else
-    let key := Lin.toStr l
-    match findKey t.exprs key with
-    | some v => some (v, t)
-    | none =>
-      if !s.rootLevel then none
-      else
-        let (slack, t) := t.newVar
-        let t := { t with exprs := emplaceKey t.exprs key slack }
-        let t := t.setBound (lbIdx slack) ⟨t.lbLin l, Lit.trueLit⟩
-        let t := t.setBound (ubIdx slack) ⟨t.ubLin l, Lit.trueLit⟩
-        let t := t.setVal slack (t.valueLin l)
-        some (slack, t.newRow slack l)
-
-/-- the loop of `new_lt … new_gt` replacing the basic variables of `expr` by their rows -/
+/-- the loop of `new_var(lin)` and `new_lt … new_gt` replacing the basic variables of `expr` by their rows -/
 def substBasic (t : Lra) (expr : Lin) : Lin :=
   (expr.vars.map (·.1)).foldl (fun e v =>
     match t.rowOf v with
@@ -200,6 +180,33 @@ def substBasic (t : Lra) (expr : Lin) : Lin :=
       let c := (Lin.find e.vars v).getD R.zero
       Lin.addAssign { e with vars := Lin.erase e.vars v } (Lin.mulR rl c)
     | none => e) expr
+
+/-- `new_var(const lin&)`: the variable equal to the expression.  The expression as given is
+    looked up first; otherwise its basic variables are replaced by their rows and the rewritten
+    expression is looked up (the given one becomes another name of the variable found); otherwise
+    a slack variable is created whose row is the rewritten expression (which may have no
+    variable left: a constant row).  `none` = an assertion of the C++ fails (empty expression,
+    or a new slack variable is needed above the root level) -/
+def newVarLin (s : Sat) (t : Lra) (l : Lin) : Option (Nat × Lra) :=
+  if l.vars.isEmpty then none
+  else
+    let key := Lin.toStr l
+    match findKey t.exprs key with
+    | some v => some (v, t)
+    | none =>
+      let expr := substBasic t l
+      let key' := Lin.toStr expr
+      match findKey t.exprs key' with
+      | some v => some (v, { t with exprs := emplaceKey t.exprs key v })
+      | none =>
+        if !s.rootLevel then none
+        else
+          let (slack, t) := t.newVar
+          let t := { t with exprs := emplaceKey (emplaceKey t.exprs key slack) key' slack }
+          let t := t.setBound (lbIdx slack) ⟨t.lbLin expr, Lit.trueLit⟩
+          let t := t.setBound (ubIdx slack) ⟨t.ubLin expr, Lit.trueLit⟩
+          let t := t.setVal slack (t.valueLin expr)
+          some (slack, t.newRow slack expr)
 
 /-- `new_lt / new_leq / new_geq / new_gt (left, right)`: the literal, the SAT state, the theory
     and the SAT variable newly bound to the theory (if any); `none` as in `newVarLin` -/
@@ -432,12 +439,12 @@ def scanUpper (t : Lra) (ubv : IR) (ex : List Lit) : Sat → List Nat → Option
         | some false => scanUpper t ubv ex s rest
 
 def lowerPart (s : Sat) (t : Lra) (x : Nat) (l : Lin) : Option (List Lit) × Sat :=
-  match rowLowerSum t l.vars (IR.ofInt 0, []) with
+  match rowLowerSum t l.vars (IR.ofR l.known, []) with
   | none => (none, s)
   | some (sum, ex) => if IR.ge sum (t.lb x) then scanLower t sum ex s (t.aWatches.getD x []) else (none, s)
 
 def upperPart (s : Sat) (t : Lra) (x : Nat) (l : Lin) (negTest : Nat → Nat) : Option (List Lit) × Sat :=
-  match rowUpperSum t negTest l.vars (IR.ofInt 0, []) with
+  match rowUpperSum t negTest l.vars (IR.ofR l.known, []) with
   | none => (none, s)
   | some (sum, ex) => if IR.le sum (t.ub x) then scanUpper t sum ex s (t.aWatches.getD x []) else (none, s)
 
